@@ -21,6 +21,9 @@ def main(argv):
     c.add_argument("--tier", default=os.environ.get("VERIF_TIER") or "quick", choices=["quick", "thorough"])
     c.add_argument("--runs", type=int, default=None)
     c.add_argument("--workers", type=int, default=None)
+    sc = sub.add_parser("scan")
+    sc.add_argument("props")
+    sc.add_argument("--runs", type=int, default=150)
     r = sub.add_parser("replay")
     r.add_argument("path")
     s = sub.add_parser("selftest")
@@ -43,6 +46,10 @@ def main(argv):
         seed = os.environ.get("VERIF_SEED")
         tier = a.tier
         return check(a.prop, tier=tier, base_seed=int(seed) if seed not in (None, "") else None, workers=a.workers, n_override=a.runs)
+    if a.cmd == "scan":
+        from .batch import scan
+        seed = os.environ.get("VERIF_SEED")
+        return scan(a.props.split(","), runs=a.runs, base_seed=int(seed) if seed not in (None, "") else None)
     if a.cmd == "replay":
         from .batch import replay
         return replay(a.path)
